@@ -103,6 +103,9 @@ def evaluate(progs, want_build=True, want_run=True, keep=False, vet=False):
                     rcs = C.root_causes(ur.model_sets)
                     ur.model = "err " + " ".join(sorted(rcs))
                 ur.model = C.norm_err(ur.model)
+                # inject's signature test comes after planning: the verdict of the whole pipeline
+                if ur.model.startswith("ok") and (ur.emit_model or "").startswith("err"):
+                    ur.model = C.norm_err(ur.emit_model)
         if want_build:
             t = time.time()
             rc, bad, lg = R.go_build(root)
@@ -160,6 +163,15 @@ def evaluate(progs, want_build=True, want_run=True, keep=False, vet=False):
 def gen_batch(n, opts, tag=""):
     rng = random.Random(seed() * 7919 + sum(ord(c) * (i + 1) for i, c in enumerate(tag)) % 1000)
     progs = [G.gen_prog(rng, "p%s%d" % (tag, k), opts) for k in range(n)]
+    if opts.get("plant"):
+        for p in progs:
+            for u in p.units:
+                u.planted = None
+                if rng.random() < opts.get("plant_p", 0.6):
+                    kind = rng.choice(opts["plant"])
+                    note = G.plant(rng, u, kind)
+                    if note:
+                        u.planted = (kind, note)
     if opts.get("adversarial"):
         from . import e2e_names
         for p in progs:
